@@ -32,8 +32,17 @@ def sizes_of(v):
 
 def load_both(text, endian, align, pointer, compiled, then=None):
     cs = structs.load(text, endian=endian, pointer=pointer, compiled=compiled, align=align)
-    for t, al in then or []:
-        cs.load(t, compiled=compiled, align=al)
+    for step in then or []:
+        if step[0] == "set_endian":
+            cs.endian = step[1]
+        elif step[0] == "warm":
+            try:
+                cs.resolve("main")(bytes.fromhex(step[1]))
+            except Exception:  # noqa: BLE001
+                pass
+        else:
+            t, al = step
+            cs.load(t, compiled=compiled, align=al)
     return cs
 
 
@@ -136,6 +145,30 @@ def check(run: Run) -> None:
                     explained.add(id(it))
                 run.report("C03/" + probs[0]["what"].split(" ")[0] + ("/aligned" if align else ""), {**c.describe(), "ops": [{"op": "compiled vs interpreted", "problems": probs[:3]}]})
 
+    # the byte order is read from the cstruct object at parse time: switch it after loading (and after a first parse)
+    n_switch = 0
+    sw_texts = [t for t in texts if " : " in t][:: 7][:40] + texts[-40:]
+    for ti, text in enumerate(sw_texts):
+        e1, e2 = rng.choice([("<", ">"), (">", "<"), ("<", "!")])
+        align = bool(ti % 2)
+        datas = [F.random_data(rng, 48), bytes(range(1, 49))]
+        steps = [("set_endian", e2)] if ti % 3 == 0 else [("warm", datas[0].hex()), ("set_endian", e2)]
+        n_oracle += len(datas)
+        n_switch += 1
+        probs = compare_readers(text, e1, align, None, datas, then=steps)
+        c = Case(text, endian=e1, align=align, compiled=True, history=[list(x) for x in steps])
+        c.ops = [("parse", d, 0) for d in datas]
+        try:
+            its = build_items(c)
+        except RuntimeError:
+            continue
+        items += its
+        if probs:
+            failures += 1
+            for it in its:
+                explained.add(id(it))
+            run.report("C03/" + probs[0]["what"].split(" ")[0] + "/endian-switch", {**c.describe(), "ops": [{"op": "compiled vs interpreted", "problems": probs[:3]}]})
+
     # mixed alignment modes on one cstruct object: helper types loaded in one mode, `main` (which embeds them) in the other
     n_mixed = 0
     for k in KINDS:
@@ -173,7 +206,7 @@ def check(run: Run) -> None:
                  "null-terminated arrays} x endianness x {packed, aligned} x pointer width; plus random definitions; inputs: full, structured and truncated"
                  % ("all" if thorough else "500 sampled"),
                  {"oracle_only_checks": n_oracle, "definitions": len(texts), "exhaustive_sequences": n_exh, "classes_compiled": n_compiled, "classes_fallen_back": n_fallback,
-                  "oracle_failures": failures, "mixed_alignment_mode_cases": n_mixed}, exhaustive=True)
+                  "oracle_failures": failures, "mixed_alignment_mode_cases": n_mixed, "endian_switch_cases": n_switch}, exhaustive=True)
     run.assumptions += ["NaN floats are not compared", "unions are never compiled (Compiler.compile returns them unchanged): they take part as members only"]
 
 
@@ -181,7 +214,7 @@ def replay(rep: dict) -> int:
     c = F.replay_case(rep)
     probs = rep["ops"][0].get("problems") or []
     datas = [bytes.fromhex(p["data"]) for p in probs if "data" in p] or [bytes(range(1, 65))]
-    then = [(h[1], h[2]) for h in c.history if h[0] == "load_align"]
+    then = [(h[1], h[2]) if h[0] == "load_align" else tuple(h) for h in c.history if h[0] in ("load_align", "set_endian", "warm")]
     now = compare_readers(c.text, c.endian, c.align, c.pointer, datas, then=then)
     print("compiled vs interpreted:", now or "equivalent on the replayed inputs")
     return 1 if now else 0
